@@ -283,7 +283,7 @@ def shard(shard, nshards, tier, seed, scratch):
         failures = run_hypothesis(strategy(), lambda c: check_case(c, drv, stats), max(1, total // nshards), seed, shrink_budget=250 if tier == 'quick' else 1500)
         if shard == 1 and not failures:
             from .. import largecases
-            for which in ('select', 'order', 'join', 'update', 'aggenum', 'wide-header'):
+            for which in ('select', 'order', 'join', 'update', 'aggenum', 'wide-header', 'join-huge'):
                 for case in largecases.large_cases(which):
                     if not qgen.renderable(case['q'], 'js'):
                         continue
